@@ -36,6 +36,7 @@ type Frame struct {
 	hasAssigns    bool
 	owns          bool
 	inOnce        bool
+	resKinds      map[string]bool
 	names         map[string][]nameRef
 }
 
@@ -65,6 +66,7 @@ type Loop struct {
 
 // Cand is a Houdini candidate invariant.
 type Cand struct {
+	parent string // group candidate this one refines ("" = top level)
 	id     string
 	enable Term
 	eval   func(st *State, phi map[*ssa.Phi]Val) Term
@@ -1136,7 +1138,7 @@ func (f *Frame) mapStore(st *State, mt types.Type, m, k Term, v Val, pos token.P
 	vc := f.vc
 	dom, size, vals := f.mapComps(mt)
 	f.frameCheckRef(st, m, dom, pos, "map update")
-	f.ownCheckVal(st, m, v, pos, "map update")
+	f.ownCheckVal(st, m, v, pos, "map update", "M|"+typeKey(mt))
 	d := vc.get(st, dom)
 	dm := Select(d, m)
 	was := Select(dm, k)
